@@ -200,7 +200,8 @@ func genC05(cs *CaseSet, rng *Rng, tier string, dir string) {
 	governing := map[int][]int{1: {10}, 2: {40}, 3: {0}, 4: {6}, 5: {4}, 6: {8}, 7: {28}, 8: {29}, 9: {3}, 10: {7}, 11: {5}, 12: {31}, 13: {2}, 14: {39},
 		15: {1}, 16: {1, 25}, 17: {38}, 18: {38, 25}, 19: {30}, 22: {14}, 23: {15}, 24: {16}, 25: {16}, 26: {17}, 27: {15}, 28: {17}, 29: {14}, 30: {22},
 		31: {24}, 32: {32}, 33: {20}, 34: {21}, 35: {20}, 36: {20}, 37: {20}, 38: {21}, 39: {33}, 40: {34}, 41: {36}, 42: {35}, 43: {37}, 44: {11}, 45: {11}}
-	one := func(cls int, b hotline.AccessBitmap, kind string) {
+	var one func(cls int, b hotline.AccessBitmap, kind string)
+	one = func(cls int, b hotline.AccessBitmap, kind string) {
 		req := build(cls)
 		cc, _ := env.NewClient("~c~", b, "10.5.0.1:1")
 		env.TakeSent()
@@ -238,6 +239,21 @@ func genC05(cs *CaseSet, rng *Rng, tier string, dir string) {
 		}
 	}
 	order = append(order, 30)
+	type job struct {
+		cls  int
+		b    hotline.AccessBitmap
+		kind string
+	}
+	var deferred []job // class 30 with the privilege held: each starts a goroutine that disconnects its victim a second later
+	runOne := one
+	one = func(cls int, b hotline.AccessBitmap, kind string) {
+		if cls == 30 && b.IsSet(22) {
+			deferred = append(deferred, job{cls, b, kind})
+			return
+		}
+		runOne(cls, b, kind)
+	}
+	defer func() {}()
 	for _, cls := range order {
 		step := 1
 		if tier == "quick" {
@@ -275,6 +291,9 @@ func genC05(cs *CaseSet, rng *Rng, tier string, dir string) {
 				one(cls, bitmapOf(rest...), "governing-minus-one")
 			}
 		}
+	}
+	for _, j := range deferred {
+		runOne(j.cls, j.b, j.kind)
 	}
 	// field contents: crafted path fields ("." / ".." items, separators inside items, declared count off by one)
 	// against the upload-folder and drop-box rules; the EFFECT is observed (a drop box's content revealed, an
